@@ -390,10 +390,12 @@ class SE2(SO2):
 
         :seealso: :func:`spatialmath.base.transforms2d.trexp`, :func:`spatialmath.base.transformsNd.skew`
         """
-        if isinstance(S, (list, tuple)):
+        if isinstance(S, (list, tuple)) and not argcheck.isvector(S, 3):
             return cls([tr.trexp2(s) for s in S])
-        else:
+        elif argcheck.isvector(S, 3) or argcheck.ismatrix(S, (3, 3)):
             return cls(tr.trexp2(S), check=False)
+        else:
+            raise ValueError('expecting an se(2) element as a 3-vector or 3x3 matrix')
 
     @staticmethod
     def isvalid(x, check=True):
